@@ -38,7 +38,7 @@ class C05(Check):
     RULE += PRELUDE_RULE
     ASSUMPTIONS = ['the order in which ONE source item is delivered to several simultaneously open windows is not constrained (the suite pins slot order, the property does not)']
     ANCHORS = ['rxsci/data/roll.py', 'rxsci/operators/multiplex.py']
-    REQUIRED_TAGS = ['top', 'group', 'roll', 'roll_eq', 'split', 'w<s', 'w=s', 'w>s', 'w%s!=0', 'n=0', 'n<w', 'ring-wrapped', 'w>256', 'numpy-typed-parameters', 'operator-object-used-in-two-pipelines', 'stride-sweep', 'consumer-runs-a-pipeline-built-with-the-same-operator-object'] + ['history-fed-more-than-the-judged-stream'] + PRELUDE_TAGS + ['prelude:overlap']
+    REQUIRED_TAGS = ['top', 'group', 'roll', 'roll_eq', 'split', 'w<s', 'w=s', 'w>s', 'w%s!=0', 'n=0', 'n<w', 'ring-wrapped', 'w>256', 'numpy-typed-parameters', 'operator-object-used-in-two-pipelines', 'stride-sweep', 'consumer-runs-a-pipeline-built-with-the-same-operator-object', 'over-255-windows-open-on-one-key'] + ['history-fed-more-than-the-judged-stream'] + PRELUDE_TAGS + ['prelude:overlap']
     REQUIRED_OBSERVED = ['child_lifetimes_checked', 'parent_lifetimes_checked', 'partial_windows_flushed']
 
     def generate(self, rng, tier, shard, nshards):
@@ -48,6 +48,10 @@ class C05(Check):
                 for n_ in (0, 1, 40, 260):
                     yield {'w': w_, 's': s_, 'parent': 'top' if n_ % 2 else 'group', 'parent_node': None if n_ % 2 else windows.PARENTS['group'](rng),
                            'items': [rng.randint(0, 40) for _ in range(n_)], 'np_params': kind}
+            # more than 255 windows open on one key at the same time (a yearly window advancing daily): counters and flags kept in a byte
+            for w_, s_, n_ in ((300, 1, 310), (514, 2, 530), (257, 1, 258)):
+                yield {'w': w_, 's': s_, 'parent': 'top' if n_ % 4 else 'group', 'parent_node': None if n_ % 4 else ['group_by', 'mod:1', None],
+                       'items': [rng.randint(0, 40) for _ in range(n_)], 'dense': True}
             # a sweep over the STRIDE values themselves (reciprocals, tables, special-cased sizes): stride s, window 2s or s + 11,
             # 2.2 s + 3 items
             top = 200 if tier == 'quick' else 1100
@@ -125,6 +129,8 @@ class C05(Check):
             out.tags.append('operator-object-used-in-two-pipelines')
         if case.get('stride_sweep'):
             out.tags.append('stride-sweep')
+        if -(-w // s) > 255 and n >= 256 * s:
+            out.tags.append('over-255-windows-open-on-one-key')
         ob = windows.observe(case['parent_node'], x, items, prelude=case.get('prelude'), reuse=bool(case.get('reuse')))
         prelude_tags(case, out)
         if ob.snap.err is not None or not ob.snap.done:
